@@ -1,8 +1,17 @@
-\* manual run of the C08 table:  tlc -workers 1 -config MC_C08.cfg CheckpointSpec.tla
-\* (harness/c08.py writes its own configurations under out/C08)
+\* Manual run of the C08 table (quick matrix, everything in one process):
+\*     tlc -workers 1 -config MC_C08.cfg CheckpointSpec.tla
+\* harness/c08.py writes its own configurations under out/C08 (the matrix split over several runs,
+\* Tier = "thorough", and the deliberately wrong tables Table # "pinned" that must be rejected).
 CONSTANTS
   Tier = "quick"
   Table = "pinned"
+  Ops = {"sleep", "sleep_until", "checkpoint", "event_wait", "lock_acquire", "sem_acquire", "lim_acquire",
+         "cond_acquire", "cond_wait", "send", "receive", "run_sync", "handle_wait", "handle_await",
+         "future_wait", "future_await", "reduce", "tg_exit"}
+  Fns = {"accumulate", "batched", "chain", "chain_from_iterable", "combinations",
+         "combinations_with_replacement", "compress", "count", "cycle", "dropwhile", "filterfalse",
+         "groupby", "islice", "pairwise", "permutations", "product", "repeat", "starmap", "tee",
+         "takewhile", "zip_longest"}
 SPECIFICATION Spec
 INVARIANT InvCheckpointed
 INVARIANT InvPreCancelled
